@@ -109,6 +109,21 @@ func directedCells() []cell {
 				"\t__F__Printf(\"%t %t %t %t %t %t\\n\", x == b, x != b, x < b, x <= b, x > b, x >= b)\n")
 		}
 	}
+	// an untyped constant at the argument / return / declaration boundary of every non-default numeric type
+	for _, T := range []string{"int8", "int16", "int32", "int64", "uint", "uint8", "uint16", "uint32", "uint64", "float32"} {
+		k := "5"
+		if T == "float32" {
+			k = "2.5"
+		}
+		cs = append(cs, cell{key: "arg-const:" + T, name: "f(" + k + ") with a " + T + " parameter", prog: gen.FromTemplate(
+			"func __P__f(a "+T+") "+T+" {\n\treturn a + a\n}\n\n"+tmplMain("\t__F__Printf(\"%v\\n\", __P__f("+k+"))\n"), false)})
+		cs = append(cs, cell{key: "method-arg-const:" + T, name: "v.M(" + k + ") with a " + T + " parameter", prog: gen.FromTemplate(
+			"type __P__S struct {\n\tF int\n}\n\nfunc (r __P__S) M(a "+T+") "+T+" {\n\treturn a + a\n}\n\n"+tmplMain("\tv := __P__S{F: 1}\n\t__F__Printf(\"%v %d\\n\", v.M("+k+"), v.F)\n"), false)})
+		cs = append(cs, cell{key: "return-const:" + T, name: "return 5 from a function with result " + T, prog: gen.FromTemplate(
+			"func __P__f(a "+T+") "+T+" {\n\tif a > 100 {\n\t\treturn 5\n\t}\n\treturn a + 7\n}\n\n"+tmplMain("\tvar x "+T+" = "+T+"(101)\n\t__F__Printf(\"%v %v\\n\", __P__f(x), __P__f(x - x))\n"), false)})
+		cs = append(cs, cell{key: "decl-const:" + T, name: "var x " + T + " = 5", prog: gen.FromTemplate(
+			tmplMain("\tvar x "+T+" = 5\n\tx = x + x\n\t__F__Printf(\"%v\\n\", x)\n"), false)})
+	}
 	cs = append(cs, findingProbes()...)
 	return cs
 }
@@ -146,12 +161,39 @@ func findingProbes() []cell {
 	add("return:in-nested-loop", "return from the first iteration of a nested loop",
 		"func __P__h(a string) string {\n\tfor i := 0; i < 1; i++ {\n\t\tfor j := 0; j < 2; j++ {\n\t\t\tif j == 0 {\n\t\t\t\treturn a + a\n\t\t\t}\n\t\t}\n\t}\n\treturn a\n}\n\n"+
 			tmplMain("\t__F__Printf(\"%s %d\\n\", __P__h(\"b\"), 6)\n"))
-	add("continue-label:range-outer", "continue <label> of a range loop from a nested loop",
-		"func __P__h(a string) string {\nL:\n\tfor i := range []int{1, 2} {\n\t\tfor j := 0; j < 3; j++ {\n\t\t\tif j == 0 {\n\t\t\t\tcontinue L\n\t\t\t}\n\t\t}\n\t\t_ = i\n\t}\n\treturn a\n}\n\n"+
-			tmplMain("\t__F__Printf(\"%s %d\\n\", __P__h(\"b\"), 6)\n"))
+	add("continue-label:range-outer", "continue L from a nested loop, L labels a range loop; the function has a deferred call",
+		"func __P__h(a int) (res int) {\n\tdefer func() {\n\t\t__F__Println(\"deferred\")\n\t}()\n\tc := 0\nL:\n\tfor i := range []int{1, 2} {\n\t\tc += i\n\t\tfor j := 0; j < 3; j++ {\n\t\t\tif j == 0 {\n\t\t\t\tcontinue L\n\t\t\t}\n\t\t\tc += 10\n\t\t}\n\t\tc += 1000\n\t}\n\treturn a + c\n}\n\n"+
+			tmplMain("\t__F__Printf(\"%d %d\\n\", __P__h(2), 6)\n"))
+	add("break-label:range-outer", "break L from a nested loop, L labels a range loop; the function has a deferred call",
+		"func __P__h(a int) (res int) {\n\tdefer func() {\n\t\t__F__Println(\"deferred\")\n\t}()\n\tc := 0\nL:\n\tfor i := range []int{1, 2} {\n\t\tc += i\n\t\tfor j := 0; j < 3; j++ {\n\t\t\tif j == 0 {\n\t\t\t\tbreak L\n\t\t\t}\n\t\t\tc += 10\n\t\t}\n\t\tc += 1000\n\t}\n\treturn a + c\n}\n\n"+
+			tmplMain("\t__F__Printf(\"%d %d\\n\", __P__h(2), 6)\n"))
+	add("continue-label:cond-outer", "continue L from a nested loop, L labels a cond loop; the function has a deferred call",
+		"func __P__h(a int) (res int) {\n\tdefer func() {\n\t\t__F__Println(\"deferred\")\n\t}()\n\tc := 0\nL:\n\tfor c < 3 {\n\t\tc++\n\t\tfor j := 0; j < 3; j++ {\n\t\t\tif j == 0 {\n\t\t\t\tcontinue L\n\t\t\t}\n\t\t\tc += 10\n\t\t}\n\t\tc += 1000\n\t}\n\treturn a + c\n}\n\n"+
+			tmplMain("\t__F__Printf(\"%d %d\\n\", __P__h(2), 6)\n"))
+	add("break-label:cond-outer", "break L from a nested loop, L labels a cond loop; the function has a deferred call",
+		"func __P__h(a int) (res int) {\n\tdefer func() {\n\t\t__F__Println(\"deferred\")\n\t}()\n\tc := 0\nL:\n\tfor c < 3 {\n\t\tc++\n\t\tfor j := 0; j < 3; j++ {\n\t\t\tif j == 0 {\n\t\t\t\tbreak L\n\t\t\t}\n\t\t\tc += 10\n\t\t}\n\t\tc += 1000\n\t}\n\treturn a + c\n}\n\n"+
+			tmplMain("\t__F__Printf(\"%d %d\\n\", __P__h(2), 6)\n"))
+	add("continue-label:forever-outer", "continue L from a nested loop, L labels a forever loop; the function has a deferred call",
+		"func __P__h(a int) (res int) {\n\tdefer func() {\n\t\t__F__Println(\"deferred\")\n\t}()\n\tc := 0\nL:\n\tfor {\n\t\tc++\n\t\tif c > 3 {\n\t\t\tbreak\n\t\t}\n\t\tfor j := 0; j < 3; j++ {\n\t\t\tif j == 0 {\n\t\t\t\tcontinue L\n\t\t\t}\n\t\t\tc += 10\n\t\t}\n\t\tc += 1000\n\t}\n\treturn a + c\n}\n\n"+
+			tmplMain("\t__F__Printf(\"%d %d\\n\", __P__h(2), 6)\n"))
+	add("break-label:forever-outer", "break L from a nested loop, L labels a forever loop; the function has a deferred call",
+		"func __P__h(a int) (res int) {\n\tdefer func() {\n\t\t__F__Println(\"deferred\")\n\t}()\n\tc := 0\nL:\n\tfor {\n\t\tc++\n\t\tif c > 3 {\n\t\t\tbreak\n\t\t}\n\t\tfor j := 0; j < 3; j++ {\n\t\t\tif j == 0 {\n\t\t\t\tbreak L\n\t\t\t}\n\t\t\tc += 10\n\t\t}\n\t\tc += 1000\n\t}\n\treturn a + c\n}\n\n"+
+			tmplMain("\t__F__Printf(\"%d %d\\n\", __P__h(2), 6)\n"))
+	add("continue-label:for3-outer", "continue L from a nested loop, L labels a for3 loop; the function has a deferred call",
+		"func __P__h(a int) (res int) {\n\tdefer func() {\n\t\t__F__Println(\"deferred\")\n\t}()\n\tc := 0\nL:\n\tfor i := 0; i < 2; i++ {\n\t\tc += i\n\t\tfor j := 0; j < 3; j++ {\n\t\t\tif j == 0 {\n\t\t\t\tcontinue L\n\t\t\t}\n\t\t\tc += 10\n\t\t}\n\t\tc += 1000\n\t}\n\treturn a + c\n}\n\n"+
+			tmplMain("\t__F__Printf(\"%d %d\\n\", __P__h(2), 6)\n"))
+	add("break-label:for3-outer", "break L from a nested loop, L labels a for3 loop; the function has a deferred call",
+		"func __P__h(a int) (res int) {\n\tdefer func() {\n\t\t__F__Println(\"deferred\")\n\t}()\n\tc := 0\nL:\n\tfor i := 0; i < 2; i++ {\n\t\tc += i\n\t\tfor j := 0; j < 3; j++ {\n\t\t\tif j == 0 {\n\t\t\t\tbreak L\n\t\t\t}\n\t\t\tc += 10\n\t\t}\n\t\tc += 1000\n\t}\n\treturn a + c\n}\n\n"+
+			tmplMain("\t__F__Printf(\"%d %d\\n\", __P__h(2), 6)\n"))
 	add("defer:before-return-expr", "deferred call and the return expression",
 		"func __P__p(s string) int {\n\t__F__Println(s)\n\treturn 1\n}\n\nfunc __P__f() int {\n\tx := 1\n\tdefer func() {\n\t\t__F__Println(\"deferred\")\n\t\tx = 2\n\t}()\n\treturn x + __P__p(\"return expr\")\n}\n\nfunc __P__g() int {\n\tx := 1\n\tdefer func() {\n\t\tx = 2\n\t}()\n\treturn x\n}\n\n"+
 			tmplMain("\t__F__Printf(\"%d\\n\", __P__f())\n\t__F__Printf(\"%d\\n\", __P__g())\n"))
+	add("multi-return:eval-order", "return e1, e2 evaluates e1 first",
+		"func __P__p(s string) float64 {\n\t__F__Println(s)\n\treturn 2.0\n}\n\nfunc __P__two() (float64, float64) {\n\treturn 1.0 - (__P__p(\"a\") * __P__p(\"b\")), __P__p(\"c\") / 0.5\n}\n\n"+
+			tmplMain("\tx, y := __P__two()\n\t__F__Printf(\"%v %v\\n\", x, y)\n"))
+	add("variadic-param:as-slice-arg", "a variadic parameter passed on as a slice argument",
+		"func __P__n(xs []int8) int {\n\treturn len(xs)\n}\n\nfunc __P__v(va ...int8) int {\n\treturn __P__n(va) + 1\n}\n\n"+
+			tmplMain("\t__F__Printf(\"%d\\n\", __P__v(int8(1), int8(2)))\n"))
 	add("negconst:float32", "negative constant combined with a float32 value",
 		tmplMain("\tvar v float32 = 2.25\n\tx := (-122.625) * (v / 4.0)\n\t__F__Printf(\"%v\\n\", x)\n\ty := v + (-0.1)\n\t__F__Printf(\"%v\\n\", y)\n"))
 	return cs
